@@ -44,6 +44,7 @@ ValueOk(d, o, x) ==
     [] x.t = "num"   -> o.t = "num" /\ (IsUnk(x.n) \/ (o.n.cls = x.n.cls /\ o.n.v = x.n.v))
     [] x.t = "nodes" -> o.t = "nodes" /\ SameNodes(d, o.v, x.v)
     [] OTHER         -> o.t = x.t /\ o.v = x.v
+KindOk(o, x) == x.t = "unk" \/ o.t = x.t
 SameObs(a, b) ==
   /\ a.t = b.t
   /\ CASE a.t \in {"err", "panic"} -> TRUE [] a.t = "num" -> a.n = b.n [] OTHER -> a.v = b.v
@@ -60,7 +61,9 @@ StepProblem(e, i) ==
   IN  IF ~EmptyAtRest(e, st) THEN "the context keeps size/position frames after the query"
       ELSE IF st.obs.t = "panic" THEN "panic"
       ELSE IF ~SameObs(st.obs, st.fresh) THEN "answer differs from the answer on a fresh context"
-      ELSE IF ~ValueOk(e.tree, st.obs, exp) THEN "answer differs from the specified outcome"
+      \* whether the VALUE is the one XPath 1.0 prescribes is C05/C09's claim; here the kind of outcome
+      \* (error or value of the specified type) must be the specified one
+      ELSE IF ~KindOk(st.obs, exp) THEN "outcome kind differs from the specified outcome"
       ELSE IF ~st.ser_same THEN "the query changed the document's serialization"
       ELSE IF ~st.order_same THEN "the query changed document-order keys"
       ELSE ""
